@@ -124,25 +124,13 @@ def classify(case):
             return "F27-offset-without-limit"
     if d == "mssql" and kind == "dialect" and cons == [3, 0, 0] and OPEN_TAKE.search(src) and "OFFSET" in code:
         return "C07-N7-mssql-offset-without-order-by"
-    # N17: LIMIT n with n >= 2^32 is printed with the suffix L
-    if re.search(r"\bLIMIT \d{10,}L\b", code) and re.search(r"take[^\n]*\d{10,}", src):
-        if kind == "tokens" or (kind == "sqlite" and "unrecognized token" in msg) or kind == "parse":
-            return "C07-N17-limit-long-suffix"
     ucode = code if d != "snowflake" else code_of(re.sub(r'"([^"\']*)"', r"\1", sql))       # snowflake: identifiers are always quoted
-    # N18: a window partitioned by `this` over a relation without declared columns: PARTITION BY *
-    if re.search(r"PARTITION BY (\w+\.)?\*", ucode) and re.search(r"\bgroup\s+(this|\w+\.\*|\{[^}]*\*[^}]*\})", src):
-        if kind in ("parse", "sqlite") or (kind == "scopex") or (kind == "scope" and (diag[0] == 5 or (diag[0] == 3 and names[1] == "*"))):
-            return "C07-N18-partition-by-star"
     # N19 (relational F38): ORDER BY of a CTE names a generated alias of its own select list qualified with a table: `ORDER BY t._expr_0`
     m19 = re.search(r"ORDER BY [^()]*?\b(\w+)\.(_expr_\d+)\b", ucode)
     if m19 and "sort" in src and re.search(r" AS %s\b" % re.escape(m19.group(2)), ucode):
         if (kind == "scope" and diag[0] == 4 and diag[1] == 5 and (names[2] or "") == m19.group(2)) or (kind == "sqlite" and ("no such column: %s.%s" % m19.groups()) in msg):
             return "C07-N19-order-by-qualified-generated-alias"
     # ---- second layer of the scope checker (kind scopex: ambiguity 21/22, window frame 23, grouping 24/25)
-    # N14: `window range:a..b` with an offset bound and not exactly one sort key
-    if "range:" in src and "RANGE" in code:
-        if (kind == "scopex" and diag[0] == 23 and diag[1] == 2 and diag[2] == 4) or (kind == "sqlite" and "requires one ORDER BY expression" in msg):
-            return "C07-N14-range-frame-without-single-order-key"
     # N15: two wildcard tables joined, a column of one of them used behind a split: the CTE projects `t.*, u.*` and the reader
     # names the column bare -- ambiguous whenever both tables have it
     if kind == "scopex" and diag[0] == 21 and "join" in src and re.search(r"\.\*, *[\w\"`]+\.\*", sql):
